@@ -317,7 +317,12 @@ def run_case(model, case):
                 a, _ = param_value(model, p, rec1)
                 b, _ = param_value(m2, p, rec1)
                 compared += 1
-                if not close(b, a * 2.0**expo, 1e-9):
+                if pm.has_covariate_effect(model, p, "WGT"):
+                    # documented: "If there already exists a covariate effect (or allometric scaling) on a parameter with the
+                    # specified allometric variable, nothing will be added."
+                    if not close(b, a, 1e-9):
+                        fails.append(f"{p} already has an effect of WGT, yet add_allometry changes it: ratio {b / a:.6g} at WGT = 2 x reference")
+                elif not close(b, a * 2.0**expo, 1e-9):
                     fails.append(f"{p} at WGT = 2 x reference: ratio {b / a:.6g}, documented 2**{expo}")
         elif kind == "iov":
             m2, st = call(pm.add_iov, "FA1")
